@@ -20,21 +20,22 @@ RULE = ("one case = one FASTA configuration (1..N records x header length x L x 
 LETTERS = "ACGTTGCAAGTC"
 
 
-def _concrete(recs, finalnl, blankend=False):
+def _concrete(recs, finalnl, blankend=False, crlf=False):
     names, seqs, text = [], [], ""
+    nl = "\r\n" if crlf else "\n"
     for i, r in enumerate(recs):
         name = "r%d" % (i + 1)
         header = name if r["hdr"] == 2 else name + " d" + "x" * (r["hdr"] - 4)
         assert len(header) == r["hdr"]
         seq = "".join(LETTERS[(3 * i + p) % len(LETTERS)] for p in range(r["L"]))
         lines = [seq[p:p + r["W"]] for p in range(0, r["L"], r["W"])]
-        text += ">" + header + "\n" + "".join(l + "\n" for l in lines)
+        text += ">" + header + nl + "".join(l + nl for l in lines)
         names.append(name)
         seqs.append(seq)
     if not finalnl:
-        text = text[:-1]
+        text = text[:-len(nl)]
     elif blankend:
-        text += "\n"
+        text += nl
     return names, seqs, text
 
 
@@ -45,18 +46,19 @@ def check_vector(v):
     from bionumpy.datatypes import Interval
     from bionumpy.encodings.string_encodings import StringEncoding
     recs, finalnl = v["recs"], v["finalnl"]
-    names, seqs, text = _concrete(recs, finalnl, v.get("blankend", False))
+    crlf = bool(v.get("crlf"))
+    names, seqs, text = _concrete(recs, finalnl, v.get("blankend", False), crlf)
     # Replace: every file a worker process handles lives under the SAME path (written, indexed, read, replaced by the next one)
     d = os.path.join(v["_dir"], "c17_%d" % os.getpid())
     os.makedirs(d, exist_ok=True)
     path = os.path.join(d, "g.fa")
     if os.path.exists(path + ".fai"):
         os.remove(path + ".fai")
-    with open(path, "w") as f:
+    with open(path, "w", newline="") as f:
         f.write(text)
     assert len(text) == v["flen"]
     bad, n = [], 0
-    tags0 = {"finalnl": finalnl, "nrec": len(recs), "blank_line_at_end": bool(v.get("blankend"))}
+    tags0 = {"finalnl": finalnl, "nrec": len(recs), "blank_line_at_end": bool(v.get("blankend")), "crlf": crlf}
     multiline = any(r["L"] > r["W"] for r in recs)
     exp_index = [[names[i], row["length"], row["offset"], row["lenc"], row["lenb"]] for i, row in enumerate(v["index"])]
 
@@ -96,6 +98,10 @@ def check_vector(v):
         res["whole"] = [outcome(lambda nm=nm: fa[nm].to_string()) for nm in names]
         # the same contigs fetched one after the other and looked at only afterwards (a result must not be a window on a reused buffer)
         res["held"] = outcome(lambda: [x.to_string() for x in [fa[nm] for nm in names]])
+        if crlf:
+            # CR LF files: the index, the contig lengths and whole contigs (interval fetches of such files are refused by the library)
+            res["ivs"] = []
+            return res
         ivs = [(i, a, b) for i, r in enumerate(recs) for a in range(r["L"]) for b in range(a + 1, r["L"] + 1)]
         chrom = [names[i] for i, _, _ in ivs]
         st = np.array([a for _, a, _ in ivs])
@@ -142,6 +148,8 @@ def check_vector(v):
         n += 1
         if res["held"] != ("ok", seqs):
             rep("whole contigs fetched one after the other and compared afterwards are not the sequences", "whole-held", seqs, res["held"], index=kind)
+        if crlf:
+            continue
         want = [seqs[i][a:b] for i, a, b in res["ivs"]]
         for pathname in ("slow", "fast"):
             n += len(want)
@@ -169,7 +177,25 @@ def check_vector(v):
                 rep("single interval fetch differs from the substring", "fetch-single", w, g, index=kind, ragged_end=ragged,
                     a_mod=a % recs[i]["W"], b_mod=b % recs[i]["W"])
                 break
-    key = json.dumps([recs, finalnl])
+    # a genome made from this file asked for the sequence of ANOTHER file with the same contig names (every sequence reversed)
+    if not crlf:
+        def other_file():
+            path2 = os.path.join(d, "h.fa")
+            for f_ in (path2, path2 + ".fai"):
+                if os.path.exists(f_):
+                    os.remove(f_)
+            with open(path2, "w") as f:
+                for nm, sq in zip(names, seqs):
+                    f.write(">%s\n%s\n" % (nm, sq[::-1]))
+            g_ = bnp.Genome.from_file(path, filter_function=None)
+            from bionumpy.datatypes import Interval as _Iv
+            whole_ = _Iv(names, np.zeros(len(names), dtype=int), np.array([len(sq) for sq in seqs]))
+            return [x.upper() for x in g_.read_sequence(path2)[g_.get_intervals(whole_)].tolist()], [x.upper() for x in g_.read_sequence()[g_.get_intervals(whole_)].tolist()]
+        o = outcome(other_file)
+        n += 1
+        if o != ("ok", ([sq[::-1].upper() for sq in seqs], [sq.upper() for sq in seqs])):
+            rep("Genome.read_sequence(other file) / read_sequence() do not read the file that was asked for", "read_sequence", [sq[::-1] for sq in seqs], o)
+    key = json.dumps([recs, finalnl, crlf])
     return {"n": n, "nt": [key] if multiline else [], "bad": bad}
 
 
@@ -238,21 +264,26 @@ def run(ctx):
     quick = ctx.tier == "quick"
     vectors = []
     for fn in (True, False):
-        consts = {"MaxRecs": 2, "MaxL": 4 if quick else 6, "MaxW": 3 if quick else 4, "FinalNL": fn, "BlankEnd": False, "MaxFetch": 1 if quick else 2}
+        consts = {"MaxRecs": 2, "MaxL": 4 if quick else 6, "MaxW": 3 if quick else 4, "FinalNL": fn, "BlankEnd": False, "MaxFetch": 1 if quick else 2, "CRLF": False}
         invs = ["FetchCorrect" if fn else "FetchCorrectUnlessAtRaggedEnd", "OffsetsAgree", "SeeksItself", "Emit"]
         res = ctx.tlc("MC_C17", tag="MC_C17_%s" % ("nl" if fn else "nonl"), spec="Spec", constants=consts, invariants=invs, coverage=True)
         ctx.require_actions(res, "MC_C17", ["FetchAny", "WholeAny", "Replace"])
         vectors += res.vectors
     if quick:
         # batches of two fetches through one handle, smaller files
-        res = ctx.tlc("MC_C17", tag="MC_C17_batch", spec="Spec", constants={"MaxRecs": 2, "MaxL": 3, "MaxW": 2, "FinalNL": True, "BlankEnd": False, "MaxFetch": 2},
+        res = ctx.tlc("MC_C17", tag="MC_C17_batch", spec="Spec", constants={"MaxRecs": 2, "MaxL": 3, "MaxW": 2, "FinalNL": True, "BlankEnd": False, "MaxFetch": 2, "CRLF": False},
                       invariants=["FetchCorrect", "SeeksItself"], keep_vectors=False)
     # the same files with an empty line after the last record
-    res = ctx.tlc("MC_C17", tag="MC_C17_blank", spec="Spec", constants={"MaxRecs": 2, "MaxL": 3 if quick else 5, "MaxW": 2 if quick else 3, "FinalNL": True, "BlankEnd": True, "MaxFetch": 1},
+    res = ctx.tlc("MC_C17", tag="MC_C17_blank", spec="Spec", constants={"MaxRecs": 2, "MaxL": 3 if quick else 5, "MaxW": 2 if quick else 3, "FinalNL": True, "BlankEnd": True, "MaxFetch": 1, "CRLF": False},
                   invariants=["FetchCorrect", "OffsetsAgree", "Emit"])
     vectors += res.vectors
+    # CR LF line ends, with and without a terminated last line: index, contig lengths and whole contigs
+    for fn in (True, False):
+        res = ctx.tlc("MC_C17", tag="MC_C17_crlf_%s" % fn, spec="Spec", constants={"MaxRecs": 2, "MaxL": 3 if quick else 5, "MaxW": 2 if quick else 3, "FinalNL": fn, "BlankEnd": False, "MaxFetch": 1, "CRLF": True},
+                      invariants=["WholeCorrect", "OffsetsAgree", "Emit"])
+        vectors += res.vectors
     if not quick:
-        res = ctx.tlc("MC_C17", tag="MC_C17_3recs", spec="Spec", constants={"MaxRecs": 3, "MaxL": 3, "MaxW": 2, "FinalNL": True, "BlankEnd": False, "MaxFetch": 2},
+        res = ctx.tlc("MC_C17", tag="MC_C17_3recs", spec="Spec", constants={"MaxRecs": 3, "MaxL": 3, "MaxW": 2, "FinalNL": True, "BlankEnd": False, "MaxFetch": 2, "CRLF": False},
                       invariants=["FetchCorrect", "OffsetsAgree", "Emit"])
         vectors += res.vectors
     for i, v in enumerate(vectors):
@@ -261,7 +292,7 @@ def run(ctx):
     ctx.sample({k: vectors[7][k] for k in ("recs", "finalnl", "index")})
     ctx.absorb(core.pmap(check_vector, vectors, chunk=10))
     # a file of several reader chunks (the index is built chunk by chunk): index by the arithmetic definition, TLC-checked above
-    big = ctx.tlc("MC_C17big", tag="MC_C17big", spec="BigSpec", constants={"MaxRecs": 1, "MaxL": 1, "MaxW": 1, "FinalNL": True, "BlankEnd": False, "MaxFetch": 1}, invariants=["EmitBig"])
+    big = ctx.tlc("MC_C17big", tag="MC_C17big", spec="BigSpec", constants={"MaxRecs": 1, "MaxL": 1, "MaxW": 1, "FinalNL": True, "BlankEnd": False, "MaxFetch": 1, "CRLF": False}, invariants=["EmitBig"])
     bv = dict(big.vectors[0], _dir=ctx.work)
     ctx.absorb([check_big(bv)])
     ctx.exhaustive = True
